@@ -181,11 +181,20 @@ def dict_key_layer(ctx):
     pkgs = {c.__name__: (pkg, c) for pkg, c in paramtable.module_classes()}
     for cls, key, name in paramtable.key_mismatches():
         pkg, c = pkgs[cls]
-        try:
-            before = rp._values_after(pkg, c, model, '<no such key>', '1', [name])
-            after = rp._values_after(pkg, c, model, key, '5000', [name])
-        except Exception as e:  # noqa
-            before, after = None, f'{type(e).__name__}: {e}'
+        def held(k):
+            import contextlib, io
+            from geophires_x.Parameter import ParameterEntry
+            o = paramtable.instantiate(pkg, c, model)
+            try:
+                with contextlib.redirect_stdout(io.StringIO()):
+                    model.InputParameters = {k: ParameterEntry(Name=k, sValue='5000', raw_entry=f'{k}, 5000')}
+                    o.read_parameters(model)
+            except Exception as e:  # noqa
+                return f'{type(e).__name__}: {e}'
+            finally:
+                model.InputParameters = {}
+            return {kk: repr(q.value) for kk, q in o.ParameterDict.items()}
+        before, after = held('<no such key>'), held(key)
         if isinstance(after, dict) and after == before:
             ctx.violate('property', f'dict-key:{cls}:{key}', f'{cls}: ParameterDict[{key!r}] holds the parameter named {name!r}; the input line '
                         f'"{key}, 5000" is neither rejected nor used (nothing is read under that key; the parameter formerly registered there is gone)',
